@@ -73,9 +73,12 @@ def run_runtime(script, args, timeout=900):
     root = os.path.dirname(os.path.dirname(os.path.abspath(__file__)))
     cmd = ['/venv/bin/python', os.path.join('runtime', script), REPO] + \
         [str(a) for a in args]
+    # small problems: BLAS / OpenMP thread pools only add contention
+    env = dict(os.environ, OMP_NUM_THREADS='1', OPENBLAS_NUM_THREADS='1',
+               MKL_NUM_THREADS='1')
     try:
         p = subprocess.run(cmd, capture_output=True, text=True, cwd=root,
-                           timeout=timeout)
+                           timeout=timeout, env=env)
     except subprocess.TimeoutExpired:
         return dict(found=False, cmd=cmd, error='timeout')
     out = None
